@@ -44,8 +44,8 @@ func (pc *pooledConnectImpl) Recycle() {
 	if pc.IsClosed() {
 		pc.pool.Put(nil)
 	} else {
-		pc.pool.Put(pc)
 		pc.returnTime = time.Now()
+		pc.pool.Put(pc)
 	}
 }
 
